@@ -50,6 +50,10 @@ CHECKS["C04"] = dict(level="exploration", design="3/C04",
    technique="TLC-evaluated oracle (Sha2.tla, Blake2b.tla, SipHash.tla, Poly1305.tla written from the standards, anchored on hashlib/OpenSSL vectors) over recorded one-shot and multi-part executions on every backend",
    text="For every listed message length the driver runs the one-shot call and init/update/final under 16 chunkings (single bytes, empty chunks, splits around 16/64/128, random) for SHA-256/512, the three HMACs with key lengths 0..128, BLAKE2b with every output and key length plus salt/personalisation, SipHash-2-4 (64/128 bit), Poly1305 incl. crafted accumulators at 2^130-5+-k and all-0xff blocks, HKDF-SHA-256/512 incl. the 255*HashLen limit, crypto_kdf incl. its range, every single-bit flip of MAC tags, and all out-of-range length combinations; each (function, input) record lists every distinct output seen and TLC requires exactly one, equal to the value it computes from the specification module; run on all BLAKE2b (avx2/sse4.1/ssse3/ref) and Poly1305 (sse2/donna64/donna32) backends and the portable build. An input sweep with an independent oracle, not a proof.",
    note="Trusted: TLC; the SHA-2 constants are derived from the FIPS definition (integer roots of primes) by tools/gen_tables.py; spec modules must pass 420 anchor records computed by hashlib/hmac/OpenSSL (setup).")
+CHECKS["C05"] = dict(level="exploration", design="3/C05",
+   technique="TLC-evaluated oracle (X25519.tla: RFC 7748 ladder on exact field arithmetic in Fe25519.tla) over recorded executions on all three ladder/field backends",
+   text="The real crypto_scalarmult / _base / box_beforenm (both ciphers) / kx session keys / seeded key pairs are run on structured inputs - the low-order and non-canonical point encodings with either top bit, u around p and 2^255, all-ones limb patterns of both field radices, all clamp-bit patterns, all-zero and all-one scalars, crafted pairs whose shared point is the tiny value 9 - and seeded random pairs, on sandy2x, ref10/fe_51, ref10/fe_25_5 and the portable build; TLC computes the RFC 7748 result (scalar clamped, top bit ignored, non-canonical u reduced, ladder with conditional swaps, inversion, canonical encoding) and requires equal bytes, failure exactly for the all-zero shared point, HSalsa20/HChaCha20 of the shared point for precomputation, BLAKE2b-512(q || client_pk || server_pk) split and crossed for kx, SHA-512 / BLAKE2b-256 seed expansion. About 2.7 s of TLC per scalar multiplication bounds the number of inputs (142 distinct records quick). An input sweep with an independent oracle, not a proof.",
+   note="Trusted: TLC; Fe25519/X25519 modules anchored on the RFC 7748 section 5.2 vector and on OpenSSL-generated pairs (spec/anchors). On failure only the return code is compared (the property does not state the buffer contents).")
 NOT_YET = {}
 def main():
     props = [json.loads(l) for l in open(os.path.join(HERE, "properties.jsonl"))]
